@@ -93,6 +93,9 @@ fn ev_of(tid: Tid, label: &str, arg: usize) -> Ev {
     }
 }
 
+#[derive(Debug)]
+struct TypedPanic(u32);
+
 #[derive(Clone, Debug)]
 struct Case {
     mode: String, // "ctl" | "free"
@@ -197,6 +200,9 @@ fn build(case: &Case, free: bool) -> (BatchProcessor, Arc<Mutex<Vec<usize>>>, Ve
         } else {
             let ran2 = Arc::clone(&ran);
             let spin = if free { (case.sseed.wrapping_mul(31).wrapping_add(i as u64 * 7)) % 4 } else { 0 };
+            // "panic" covers every unwinding payload: half of the panicking jobs unwind with a typed
+            // payload (panic_any), not a string (seeded change C22/2 let those escape the containment)
+            let typed_payload = (case.sseed.wrapping_add(i as u64)) % 2 == 1;
             p.add_job(BatchJob::Custom {
                 name: format!("j{i}"),
                 operation: Box::new(move || {
@@ -207,6 +213,7 @@ fn build(case: &Case, free: bool) -> (BatchProcessor, Arc<Mutex<Vec<usize>>>, Ve
                     match o {
                         0 => Ok(()),
                         1 => Err(PdfError::InvalidOperation(format!("job {i} fails"))),
+                        _ if typed_payload => std::panic::panic_any(TypedPanic(i as u32)),
                         _ => panic!("job {i} panics"),
                     }
                 }),
